@@ -2,6 +2,7 @@ package exec
 
 import (
 	"encoding/json"
+	"fmt"
 	"strings"
 
 	"gosym/smt"
@@ -41,6 +42,17 @@ func (in *Interp) installStubs8() {
 	delegate("os.ReadFile", "hOsReadFile")
 	delegate("os.UserHomeDir", "hOsUserHomeDir")
 	delegate("os.Getenv", "hOsGetenv")
+	S["github.com/mattn/go-isatty.IsTerminal"] = func(in *Interp, a []Value) Value { return st.F }
+	S["github.com/mattn/go-isatty.IsCygwinTerminal"] = func(in *Interp, a []Value) Value { return st.F }
+	S["runtime.Version"] = func(in *Interp, a []Value) Value { return Str{S: "go"} }
+	S["os.Environ"] = func(in *Interp, a []Value) Value { return SliceV{} }
+	S["fmt.Fprintf"] = func(in *Interp, a []Value) Value {
+		s := fmt.Sprintf(in.concStr(a[1]), in.fmtArgs(a[2])...)
+		return in.writeTo(a[0].(Iface), s)
+	}
+	S["fmt.Fprintln"] = func(in *Interp, a []Value) Value {
+		return in.writeTo(a[0].(Iface), fmt.Sprintln(in.fmtArgs(a[1])...))
+	}
 	S["os.Executable"] = func(in *Interp, a []Value) Value { return Tuple{Str{S: "/v/bin/gojq"}, Iface{}} }
 	S["path/filepath.EvalSymlinks"] = func(in *Interp, a []Value) Value { return Tuple{a[0], Iface{}} }
 	S["os.IsNotExist"] = func(in *Interp, a []Value) Value {
@@ -161,4 +173,16 @@ func (in *Interp) drainReader(r Iface) string {
 	}
 	abortf("unsupported: reader did not reach EOF")
 	return ""
+}
+
+// writeTo calls w.Write(bytes of s) through the interpreted method of the writer.
+func (in *Interp) writeTo(w Iface, s string) Value {
+	if w.T == nil {
+		in.panicf("nil io.Writer")
+	}
+	sel := in.Prog.MethodSets.MethodSet(w.T).Lookup(nil, "Write")
+	if sel == nil {
+		abortf("unsupported: writer %v has no Write method", w.T)
+	}
+	return in.callFunction(in.Prog.MethodValue(sel), []Value{w.V, in.byteSlice([]byte(s))})
 }
